@@ -47,6 +47,7 @@ func (d *driver) reduceToCase(sc *sim.Scenario) *sim.Scenario {
 			out.C11.Histories = [][]sim.Op{v.History}
 			out.C11.Perms = false
 			out.C11.Short = false
+			out.C11.Deep3 = false
 			out.C11.NRandom = 0
 		}
 	case "C07":
